@@ -2,6 +2,7 @@ package sim
 
 import (
 	"fmt"
+	"runtime"
 	"sync"
 	"testing/synctest"
 	"time"
@@ -9,19 +10,27 @@ import (
 
 // Sched is the seeded scheduler of the CONC engines. Task goroutines run inside
 // one synctest bubble; exactly one runs at a time. A task runs until it parks at
-// a yield point, blocks durably or finishes (detected with synctest.Wait). Then
-// the scheduler consumes the next value of the choice stream to pick the next
-// parked task or a clock advance. The choice stream is program data, so a run is
-// a pure function of (program, code).
+// a yield point, blocks durably or finishes. Then the scheduler consumes the next
+// value of the choice stream to pick the next parked task or a clock advance. The
+// choice stream is program data, so a run is a pure function of (program, code).
+//
+// Race-detector mode (NoHB): the hand-off between tasks must not create
+// happens-before edges, or the detector would see every task segment ordered
+// after the previous one and could never report a race. synctest.Wait acquires
+// the state of every parked goroutine (runtime/synctest.go), so in this mode the
+// scheduler learns that a task parked by polling plain flags from //go:norace
+// functions and uses buffered gates; synctest.Wait is only the fallback for a
+// task that blocked inside the code under test.
 
 type Task struct {
-	Name   string
-	ID     int
-	gate   chan struct{}
-	parked bool
-	site   string
-	done   bool
-	s      *Sched
+	Name    string
+	ID      int
+	gate    chan struct{}
+	parked  bool
+	site    string
+	done    bool
+	blocked bool // did not park or finish when last granted (blocked in the code under test)
+	s       *Sched
 }
 
 type Sched struct {
@@ -34,8 +43,11 @@ type Sched struct {
 	Advances []time.Duration // clock-advance options offered at every decision
 	OnStep   func() error    // invariant evaluated after every step
 	Stalled  bool
+	NoHB     bool // race-detector friendly hand-off
+	Draining bool // yields are no-ops: let everything run to completion
 	byGID    map[uint64]*Task
 	mu       sync.Mutex
+	nreg     int
 }
 
 func NewSched(choices []int) *Sched {
@@ -59,46 +71,102 @@ func (s *Sched) next(n int) int {
 
 // Go starts a task. The task starts parked at site "start".
 func (s *Sched) Go(name string, fn func(t *Task)) *Task {
-	t := &Task{Name: name, ID: len(s.Tasks), gate: make(chan struct{}), s: s, parked: true, site: "start"}
+	t := &Task{Name: name, ID: len(s.Tasks), gate: make(chan struct{}, 1), s: s, parked: true, site: "start"}
 	s.Tasks = append(s.Tasks, t)
 	go func() {
 		s.mu.Lock()
 		s.byGID[goid()] = t
+		s.nreg++
 		s.mu.Unlock()
 		<-t.gate
-		defer func() { t.done = true; t.parked = false }()
+		defer t.finish()
 		fn(t)
 	}()
 	return t
 }
 
+//go:norace
+func (t *Task) finish() { t.done = true; t.parked = false }
+
+//go:norace
+func (t *Task) setParked(site string) { t.site = site; t.parked = true }
+
+//go:norace
+func (t *Task) state() (parked, done bool, site string) { return t.parked, t.done, t.site }
+
+//go:norace
+func (t *Task) clearParked() { t.parked = false; t.blocked = false }
+
 // Yield parks the calling task until the scheduler grants it again.
 func (t *Task) Yield(site string) {
-	t.site = site
-	t.parked = true
+	if t.s.draining() {
+		return
+	}
+	t.setParked(site)
 	<-t.gate
 }
 
-// TaskOf returns the task of the calling goroutine, if it is one.
-func (s *Sched) TaskOf() *Task {
-	s.mu.Lock()
-	defer s.mu.Unlock()
-	return s.byGID[goid()]
+//go:norace
+func (s *Sched) draining() bool { return s.Draining }
+
+// TaskOf returns the task of the calling goroutine, if it is one. Lock-free
+// after start-up (tasks register before the first grant).
+//
+//go:norace
+func (s *Sched) TaskOf() *Task { return s.byGID[goid()] }
+
+func (s *Sched) waitRegistered() {
+	for {
+		s.mu.Lock()
+		n := s.nreg
+		s.mu.Unlock()
+		if n >= len(s.Tasks) {
+			return
+		}
+		runtime.Gosched()
+	}
+}
+
+// settle waits until the granted task parked, finished or blocked.
+func (s *Sched) settle(t *Task) {
+	if !s.NoHB || t == nil {
+		synctest.Wait()
+		return
+	}
+	deadline := time.Now() // fake clock does not move; count spins instead
+	_ = deadline
+	for i := 0; i < 20000; i++ {
+		p, d, _ := t.state()
+		if p || d {
+			return
+		}
+		runtime.Gosched()
+	}
+	// fallback: the task is slow or blocked inside the code under test
+	synctest.Wait()
+	p, d, _ := t.state()
+	if !p && !d {
+		t.blocked = true
+	}
 }
 
 // Run drives the tasks until all are done, the step budget is exhausted or
 // nothing can make progress.
 func (s *Sched) Run() error {
+	s.waitRegistered()
+	var last *Task
 	for s.Steps = 0; s.Steps < s.MaxSteps; s.Steps++ {
-		synctest.Wait()
+		s.settle(last)
+		last = nil
 		var ready []*Task
 		alive := 0
 		for _, t := range s.Tasks {
-			if t.done {
+			p, d, _ := t.state()
+			if d {
 				continue
 			}
 			alive++
-			if t.parked {
+			if p {
 				ready = append(ready, t)
 			}
 		}
@@ -113,16 +181,18 @@ func (s *Sched) Run() error {
 		k := s.next(n)
 		if k < len(ready) {
 			t := ready[k]
-			s.Trace = append(s.Trace, fmt.Sprintf("run %s@%s", t.Name, t.site))
-			t.parked = false
+			_, _, site := t.state()
+			s.Trace = append(s.Trace, fmt.Sprintf("run %s@%s", t.Name, site))
+			t.clearParked()
 			t.gate <- struct{}{}
+			last = t
 		} else {
 			d := s.Advances[k-len(ready)]
 			s.Trace = append(s.Trace, fmt.Sprintf("clock +%v", d))
 			time.Sleep(d)
 		}
 		if s.OnStep != nil {
-			synctest.Wait()
+			s.settle(last)
 			if err := s.OnStep(); err != nil {
 				return err
 			}
@@ -130,3 +200,45 @@ func (s *Sched) Run() error {
 	}
 	return nil
 }
+
+// Drain lets every unfinished task run to completion: yields become no-ops and
+// parked tasks are released. Returns the names of tasks that still did not
+// finish (blocked forever).
+func (s *Sched) Drain(advance time.Duration, rounds int) []string {
+	s.setDraining()
+	for r := 0; r < rounds; r++ {
+		alive := 0
+		for _, t := range s.Tasks {
+			p, d, _ := t.state()
+			if d {
+				continue
+			}
+			alive++
+			if p {
+				t.clearParked()
+				select {
+				case t.gate <- struct{}{}:
+				default:
+				}
+			}
+		}
+		if alive == 0 {
+			return nil
+		}
+		synctest.Wait()
+		if advance > 0 {
+			time.Sleep(advance)
+			synctest.Wait()
+		}
+	}
+	var stuck []string
+	for _, t := range s.Tasks {
+		if _, d, site := t.state(); !d {
+			stuck = append(stuck, t.Name+"@"+site)
+		}
+	}
+	return stuck
+}
+
+//go:norace
+func (s *Sched) setDraining() { s.Draining = true }
